@@ -246,6 +246,16 @@ func (x *X) applyContract(s *State, callee *ssa.Function, ct *Contract, args []V
 		if sc, ok := v.(Sc); ok && namedOf(sig.At(j).Type()) == "" {
 			s.assume(rangeFact(sc.T, sig.At(j).Type()))
 		}
+		if sl, ok := v.(Sl); ok && sl.ID == 0 && sl.Elem != nil {
+			// a returned slice owns a backing array the caller may hand to functions that write to it
+			if _, opq := sl.Elem.(Opq); !opq {
+				if _, ia := sl.Elem.(IfaceArr); !ia {
+					id := x.newID()
+					s.arrs[id] = sl.Elem
+					v = Sl{id, sl.Len, nil}
+				}
+			}
+		}
 		res = append(res, v)
 	}
 	for _, c := range ct.Sets {
@@ -318,6 +328,12 @@ func (x *X) havocObject(s *State, v Val, prefix string) {
 		}
 	case Iface:
 		x.havocObject(s, p.V, prefix)
+	case Sl:
+		// the elements of the backing array may be rewritten (the length of the caller's slice value is unchanged)
+		if p.ID == 0 {
+			x.fail("modifies *%s: the slice has no mutable backing store in the model", prefix)
+		}
+		s.arrs[p.ID] = x.havocLike(s, prefix+".e", nil, x.flat(s, s.arrs[p.ID]))
 	}
 }
 
